@@ -105,6 +105,7 @@ inductive OpClass
   | recv | get (timeout : Bool) | send | deliver (chunk : String) | threadStart
   | lsnLock (kind : LKind)         -- manager lock taken by a listener method
   | lsnPutOp                       -- enqueue made by a listener method
+  | failurePut (msg : String)      -- `listener.failure(exc)`: the FAL notification is enqueued (no lock, no item)
 deriving Inhabited
 
 /-- one chunk of thread `tid` (`R`, `W`, `P`, `T<n>`, `E<n>`), `item` given for listener calls of E threads. -/
@@ -157,6 +158,10 @@ def gstep (s : DState) (tid : String) (op : OpClass) (lsnItem : String) : Option
       | [] => none
     | .send, .send m => some ({ s with wpc := .get, written := s.written ++ [m] }, [.sent (m ++ "\r\n")])
     | _, _ => none
+  else if (match op with | .failurePut _ => true | _ => false) then
+    match op with
+    | .failurePut msg => let l := writeFailure msg; some ({ s with sendQ := s.sendQ ++ [l] }, [.enqueue l])
+    | _ => none
   else if tid.startsWith "T" then
     match (tid.drop 1).toString.toNat? with
     | none => none
